@@ -57,7 +57,7 @@ var fnWhitelist = map[string][]string{
 		"Header.Valid",
 		"OperatorClaims.Claims", "AccountClaims.Claims", "UserClaims.Claims", "ActivationClaims.Claims", "ClusterClaims.Claims", "ServerClaims.Claims", "GenericClaims.Claims",
 		"OperatorClaims.ExpectedPrefixes", "AccountClaims.ExpectedPrefixes", "UserClaims.ExpectedPrefixes", "ActivationClaims.ExpectedPrefixes", "ClusterClaims.ExpectedPrefixes", "ServerClaims.ExpectedPrefixes", "GenericClaims.ExpectedPrefixes",
-		"ClaimsData.Verify", "Decode",
+		"ClaimsData.Verify", "parseHeaders", "Decode",
 	},
 }
 
@@ -243,7 +243,7 @@ var nilableElems = map[string]bool{"Export": true, "Import": true}
 // opaqueFns: package functions that translated code may call but that stay outside the translation (their behaviour
 // is a parameter of the translated caller: a field of the generated structure `Opq`)
 // opaqueFnsV1: additionally opaque in the v1compat package only
-var opaqueFnsV1 = map[string]bool{"parseHeaders": true}
+var opaqueFnsV1 = map[string]bool{}
 
 var opaqueFns = map[string]bool{"UserClaims.HasEmptyPermissions": true, "parseClaims": true, "ClaimsData.encode": true, "decodeString": true, "loadOperator": true, "loadAccount": true, "loadUser": true, "loadActivation": true, "loadAuthorizationRequest": true, "loadAuthorizationResponse": true, "DecodeActivationClaims": true, "RenamingSubject.ToSubject": true}
 
